@@ -31,5 +31,5 @@ GSpec == GInit /\ [][GNext]_gvars
 Between(i, j) == {n \in (i + 1)..(j - 1) : hist[n].a \in {"flushinstall", "creflect", "put", "del", "putrotate", "handoff"}}
 Overlaps == \E i, j \in 1..Len(hist) : i < j /\ hist[i].a = "gettables" /\ hist[j].a = "getmem" /\ hist[i].c = hist[j].c
                                        /\ (\A n \in (i + 1)..(j - 1) : ~(hist[n].a = "getmem" /\ hist[n].c = hist[i].c)) /\ Between(i, j) # {}
-GenLeaf == Len(hist) = MaxHist => PrintT(<<"BEH", Overlaps, ToJson(hist)>>)
+GenLeaf == Len(hist) = MaxHist => PrintT(<<"BEH", ToJson([ov |-> Overlaps, h |-> hist])>>)
 =============================================================================
